@@ -237,6 +237,8 @@ def decode_elf(data):
         s["sname"] = cstr(e_shstrndx, s["name"]) if e_shnum else ""
     cells, symbols = [], []
     for s in secs:
+        if s["flags"] & 0x20 and s["type"] != 8 and s["size"] and data[s["offset"] + s["size"] - 1] != 0:
+            problems.append("strings section %s (SHF_STRINGS) does not end with a NUL" % s["sname"])
         if s["type"] == 1 and (s["flags"] & 2):       # PROGBITS + SHF_ALLOC: occupies memory
             blob = data[s["offset"]:s["offset"] + s["size"]]
             cells += [(s["addr"] + i, v) for i, v in enumerate(blob)]
@@ -247,6 +249,7 @@ def decode_elf(data):
                 raise FormatError("symtab size %d not a multiple of %d" % (s["size"], symsize))
             if s["link"] >= e_shnum or secs[s["link"]]["type"] != 3:
                 raise FormatError("symtab sh_link %d is not a string table" % s["link"])
+            binds = []
             for k in range(s["size"] // symsize):
                 o = s["offset"] + k * symsize
                 if cls == 1:
@@ -254,6 +257,15 @@ def decode_elf(data):
                 else:
                     st_name, st_info, st_other, st_shndx, st_value, st_size = struct.unpack(e + "IBBHQQ", data[o:o + 24])
                 symbols.append({"name": cstr(s["link"], st_name), "value": st_value, "info": st_info, "shndx": st_shndx})
+                binds.append(st_info >> 4)
+                if not (st_shndx < e_shnum or st_shndx >= 0xff00):
+                    problems.append("symbol %d st_shndx=%d is not a section index" % (k, st_shndx))
+            # gABI: sh_info = one greater than the index of the last STB_LOCAL symbol; all locals precede the globals
+            first_global = next((k for k, b in enumerate(binds) if b != 0), len(binds))
+            if any(b == 0 for b in binds[first_global:]):
+                problems.append("symtab local symbol after a global one")
+            elif s["info"] != first_global:
+                problems.append("symtab sh_info=%d (first non-local symbol is %d)" % (s["info"], first_global))
     phdrs = []
     if e_phnum:
         if e_phentsize != phsize:
